@@ -53,22 +53,27 @@ def main():
             continue
         row = {}
         try:
-            for p in family(pid, "%s/%s/%s/patch.diff" % (base, pid, k)):
+            import concurrent.futures
+
+            def one(p):
                 rc, out = sh("./check %s --tier quick" % p, cwd="/verif", timeout=3000)
                 lines = [l for l in out.split("\n") if l.startswith("VIOLATION") or l.startswith("OK ")]
                 last = lines[-1] if lines else "?"
                 if last.startswith("OK"):
-                    row[p] = "ok"
-                elif "no-failing-input-found" in last:
-                    row[p] = "alarm-no-input"
-                elif last.startswith("VIOLATION"):
+                    return p, "ok"
+                if "no-failing-input-found" in last:
+                    return p, "alarm-no-input"
+                if last.startswith("VIOLATION"):
                     what = ""
                     m = re.search(r"replay=(\S+)", last)
                     if m and os.path.exists(m.group(1)):
                         what = json.load(open(m.group(1))).get("what", "")[:300]
-                    row[p] = "alarm-input: " + what
-                else:
-                    row[p] = "error: " + out[-200:]
+                    return p, "alarm-input: " + what
+                return p, "error: " + out[-200:]
+            # the checks of one change run side by side (they coordinate through the locks of lib/common.py)
+            with concurrent.futures.ThreadPoolExecutor(max_workers=int(os.environ.get("MATRIX_PAR", "6"))) as ex:
+                for p, v in ex.map(one, family(pid, "%s/%s/%s/patch.diff" % (base, pid, k))):
+                    row[p] = v
         finally:
             sh("git -C /repo checkout -- . && git -C /repo clean -fdq")
         res["%s/%s" % (pid, k)] = row
